@@ -153,6 +153,10 @@ Proof.
   - destruct (interp_stmt bs E v a i) as [i1|]; [|discriminate]. apply IH. exact H.
 Qed.
 
+Lemma interp_split2 bs E v (a b : shstmt) r i i' :
+  interp_stmts bs E v [a; b] i = Some i' -> interp_stmts bs E v (a :: b :: r) i = interp_stmts bs E v r i'.
+Proof. exact (interp_split bs E v [a; b] r i i'). Qed.
+
 Lemma run_cases_cons bs E v l body r i i' :
   interp_stmts bs E v body i = Some i' ->
   run_cases bs E v ((l, body) :: r) i = if ends_with_fall body then run_cases bs E v r i' else Some i'.
@@ -175,17 +179,17 @@ Definition opt_nat (o : option nat) : nat := match o with Some n => n | None => 
 (* chunk: [bs E v t n b s] the current state, [l] the statements of one block, [mk] which
    model step they must be.  Proves  interp l (state with ANY memory s0) = state' with (step s0)
    by evaluation on the symbolic memory of ONE step, and returns the header of state'. *)
-Ltac chunk_enc bs E v l t n b :=
+Ltac chunk_enc H bs E v l t n b :=
   let i0 := constr:(mkist t n b dummy) in
   let off := eval vm_compute in (loc_off i0 (stmt_loc (first_xor l))) in
   let r := eval vm_compute in (option_map ist_hdr (interp_stmts bs E v l i0)) in
   lazymatch r with
   | Some (?t', ?n', ?b') =>
-      constr:(ltac:(intro s0; reflexivity) :
-                forall s0, interp_stmts bs E v l (mkist t n b s0) = Some (mkist t' n' b' (enc_step bs E off s0)))
+      assert (H : forall s0, interp_stmts bs E v l (mkist t n b s0) = Some (mkist t' n' b' (enc_step bs E off s0)))
+        by abstract (intro; reflexivity)
   end.
 
-Ltac chunk_dec bs E v l t n b :=
+Ltac chunk_dec H bs E v l t n b :=
   let i0 := constr:(mkist t n b dummy) in
   let off := eval vm_compute in (loc_off i0 (stmt_loc (first_xor l))) in
   let rdo := eval vm_compute in (opt_nat (ks_off i0 (stmt_ks (first_xor l)))) in
@@ -193,24 +197,26 @@ Ltac chunk_dec bs E v l t n b :=
   let r := eval vm_compute in (option_map ist_hdr (interp_stmts bs E v l i0)) in
   lazymatch r with
   | Some (?t', ?n', ?b') =>
-      constr:(ltac:(intro s0; reflexivity) :
-                forall s0, interp_stmts bs E v l (mkist t n b s0) = Some (mkist t' n' b' (dec_step bs E rdo wro off s0)))
+      assert (H : forall s0, interp_stmts bs E v l (mkist t n b s0) = Some (mkist t' n' b' (dec_step bs E rdo wro off s0)))
+        by abstract (intro; reflexivity)
   end.
 
 (* loop body: two statements per block, then `base += W` *)
 Ltac body_pairs chunk :=
   repeat lazymatch goal with
   | |- interp_stmts ?bs ?E ?v (?a :: ?b :: ?c :: ?r) (mkist ?t ?n ?bb ?s) = _ =>
-      let H := chunk bs E v constr:([a; b]) t n bb in
-      rewrite (interp_split bs E v [a; b] (c :: r) _ _ (H s))
+      let H := fresh "H" in
+      chunk H bs E v constr:([a; b]) t n bb;
+      rewrite (interp_split2 bs E v a b (c :: r) _ _ (H s)); clear H
   end.
 
 (* switch: one case body per block *)
 Ltac tail_cases chunk :=
   repeat lazymatch goal with
   | |- option_map _ (run_cases ?bs ?E ?v ((?l, ?body) :: (?l2, ?body2) :: ?r) (mkist ?t ?n ?bb ?s)) = _ =>
-      let H := chunk bs E v body t n bb in
-      rewrite (run_cases_cons bs E v l body ((l2, body2) :: r) _ _ (H s)); cbn [ends_with_fall]
+      let H := fresh "H" in
+      chunk H bs E v body t n bb;
+      rewrite (run_cases_cons bs E v l body ((l2, body2) :: r) _ _ (H s)); clear H; cbn [ends_with_fall]
   end.
 
 Ltac enter_switch :=
